@@ -87,6 +87,26 @@ func oracleC01(f *sessionFam, w *World, res *Result) []Violation {
 				optOf[e.S] = e.P[2]
 			}
 		}
+		// which messages sit behind a pre-encoded one in their flush batch
+		behindPre := map[string]bool{}
+		for _, e := range w.evs(a, "flush") {
+			pre := false
+			for _, p := range e.P {
+				k := strings.TrimPrefix(p, "message|")
+				if pre {
+					behindPre[k] = true
+				}
+				if optOf[k] == "preencoded" {
+					pre = true
+				}
+			}
+		}
+		lossCtx := func(k string) string {
+			if behindPre[k] {
+				return "/behind-preencoded-in-batch"
+			}
+			return optCtx(optOf[k])
+		}
 		senderOf := map[string]string{}
 		for s, ms := range bySender {
 			for _, m := range ms {
@@ -102,9 +122,13 @@ func oracleC01(f *sessionFam, w *World, res *Result) []Violation {
 			if len(e.P) > 0 {
 				tr = e.P[0]
 			}
-			if initial != "" && e.S == "t:"+initial && !seen["\x00init"] {
+			if initial != "" && !seen["\x00init"] {
+				// the first message of a session with a configured initial packet is that
+				// packet; what it looks like is C06's business
 				seen["\x00init"] = true
-				continue
+				if _, mine := senderOf[e.S]; !mine {
+					continue
+				}
 			}
 			if seen[e.S] {
 				l.add("exactly-once", tr, fmt.Sprintf("%s [%s]: message %q delivered to the client twice", a, ctx, clip(e.S, 60)))
@@ -131,7 +155,7 @@ func oracleC01(f *sessionFam, w *World, res *Result) []Violation {
 			want := bySender[s][min(next[s], len(bySender[s])-1)]
 			wk := kindPrefix(want.Binary) + string(want.Data)
 			if next[s] >= len(bySender[s]) || wk != e.S {
-				l.add("per-sender-prefix", tr+optCtx(optOf[wk]), fmt.Sprintf("%s [%s]: sender %s: client received %q while the next undelivered message of that sender is %q (messages lost or reordered)", a, ctx, s, clip(e.S, 50), clip(wk, 50)))
+				l.add("per-sender-prefix", tr+lossCtx(wk), fmt.Sprintf("%s [%s]: sender %s: client received %q while the next undelivered message of that sender is %q (messages lost or reordered)", a, ctx, s, clip(e.S, 50), clip(wk, 50)))
 				// resynchronise after the received one
 				for i, m := range bySender[s] {
 					if kindPrefix(m.Binary)+string(m.Data) == e.S {
@@ -153,7 +177,7 @@ func oracleC01(f *sessionFam, w *World, res *Result) []Violation {
 						continue
 					}
 					wk := kindPrefix(m.Binary) + string(m.Data)
-					l.add("eventually-delivered", optCtx(optOf[wk]), fmt.Sprintf("%s [%s]: sender %s: message %q (sent at event #%d, state %s) was never received although the session stayed open and the client kept reading", a, ctx, s, clip(wk, 50), m.Seq, m.State))
+					l.add("eventually-delivered", strings.TrimPrefix(lossCtx(wk), "/"), fmt.Sprintf("%s [%s]: sender %s: message %q (sent at event #%d, state %s) was never received although the session stayed open and the client kept reading", a, ctx, s, clip(wk, 50), m.Seq, m.State))
 				}
 			}
 		}
